@@ -57,14 +57,14 @@ type c15Case struct {
 	Opts  tblOpts   `json:"opts"`
 	Calls []c15Call `json:"calls"`
 	// observations
-	CloseErr string  `json:"close_err,omitempty"`
-	Table    scanOut `json:"table"`
-	Meta     metaOut `json:"meta"`
+	CloseErr string   `json:"close_err,omitempty"`
+	Table    scanOut  `json:"table"`
+	Meta     metaOut  `json:"meta"`
 	IdxPay   [][]byte `json:"-"`
-	IndexLen int     `json:"index_len"`
-	DataLen  int     `json:"data_len"`
-	OpenErr  string  `json:"open_err,omitempty"`
-	Fatal    string  `json:"fatal,omitempty"`
+	IndexLen int      `json:"index_len"`
+	DataLen  int      `json:"data_len"`
+	OpenErr  string   `json:"open_err,omitempty"`
+	Fatal    string   `json:"fatal,omitempty"`
 }
 
 func (c *c15Case) Exec() {
@@ -292,8 +292,8 @@ func genC15(r *rand.Rand, tier string) []Case {
 func init() {
 	register(&Prop{
 		ID: "C15", Num: 15,
-		Gen: genC15,
-		New: func() Case { return &c15Case{} },
+		Gen:  genC15,
+		New:  func() Case { return &c15Case{} },
 		Rule: "sequences of 0..24 WriteNext calls with unsorted, repeated, empty and varying-length keys, nil/empty/adversarial values, a random subset failing at the data append or at the index append (wrappers installed through the verif hook), retries of the failed key, 4x4 compression pairs, write buffers {1,7,64,4096}; table reopened, metadata compared with the table and the file sizes. Non-trivial: >=2 accepted and >=1 refused call.",
 	})
 }
